@@ -6,6 +6,14 @@ props = [json.loads(l) for l in open('/verif/properties.jsonl')]
 
 # id -> dict(engine, technique, text, note, design_ref)
 CLAIMED = {
+ "C01": dict(engine="h_lang", design_ref="DESIGN.md §4 C01",
+   technique="bounded exhaustive enumeration of typed Aiken function bodies x full argument products, each compiled by the real pipeline and evaluated on the real machine; oracle: an independent reference interpreter of the source semantics",
+   text="Every function body up to a size bound in each of 13 strata that are closed under typing (arithmetic/comparison/if/let; connectives with fail/todo/trace operands; when over ADTs, records, tuples, options, lists and a recursive tree; recursive/higher-order/generic helpers; expect patterns; Data up- and down-casts; lambdas, captures, pipes; structural equality) - 107k functions quick - is parsed, type-checked and compiled by the real code generator and optimiser, applied to the full cartesian product of its parameters' value universes (3.9M evaluations quick) and compared with a strict big-step reference interpreter written from the language reference: same value, or both abort. A disagreement that is absent before optimisation is attributed to the optimiser and reported under C02's signature.",
+   note="trusted: h_lang::ak (printer emitting fully bracketed source + interpreter: strict left-to-right, first-match when, floor division/modulo, short-circuit connectives, Data encoding of values); unused lets are not evaluated (documented behaviour); only the fragment and the argument alphabet are covered"),
+ "C02": dict(engine="h_lang", design_ref="DESIGN.md §4 C02",
+   technique="explicit-state exploration of the optimiser's pass sequence on real compiler output (states = programs after each public pass, replayed by the harness and bound to the pipeline's own result by byte equality), every state evaluated on the full argument product and compared with the pre-optimisation state",
+   text="For every function of the C01 strata and for a constant-folding family (every foldable builtin applied to boundary literals inside an Aiken body) the program handed to the optimiser is captured (hook H1); the harness applies the public passes in the order of aiken_optimize_and_intern, checks that its final state is flat-byte-identical to what the pipeline returned (binding), and evaluates every distinct intermediate and final state on every argument tuple: failure/constant result must equal that of the pre-optimisation program; no pass may panic or produce an open term.",
+   note="a state is given meaning by erasing the `__no_inline__` marker lambdas (annotations, not binders) and applying the pipeline's own CodeGenInterner to a copy (binder identity of generated names is (text, unique); checked by C11); quick tier evaluates all intermediate states for every 4th function and s0 vs final for the rest; acceptance-project validators are not yet fed through this check"),
  "C03": dict(engine="h_uplc", design_ref="DESIGN.md §4 C03",
    technique="bounded exhaustive enumeration of closed UPLC terms, each executed on the real evaluator and on an independent reference CEK machine",
    text="Every closed term up to a size bound (full alphabet: size<=5 quick / <=6 thorough; small alphabet two sizes deeper) under each of the five semantics variants is evaluated by the real machine and by a reference CEK machine written from the specification; results (discharged value or failure) must coincide. Complete within the bound, silent beyond it.",
